@@ -159,7 +159,7 @@ const vfCoreRule = "two real KCP state machines joined by a datagram bag under a
 
 // C01: the reader sees a prefix of what was written.
 func vfC01core(c *hx.Ctx) {
-	K := hx.Pick(c, 6, 8)
+	K := hx.Pick(c, 6, 7)
 	grid := vfCoreGrid(!c.Quick(), K, vfAllFates)
 	// fragment-count boundary of raw message mode: 255 fragments (the maximum), 256 (must be refused), with a
 	// reader that polls while the message is only partly received
@@ -174,11 +174,16 @@ func vfC01core(c *hx.Ctx) {
 
 // C02: a healed network always drains the backlog.
 func vfC02(c *hx.Ctx) {
-	c.Rule(vfCoreRule + " Plus total outages: every datagram emitted in [t0, t0+L) is dropped, t0 at every emission instant of the loss-free run, L in {1 RTO, 3 RTO, 10s, 130s}.")
+	c.Rule(vfCoreRule + " Plus total outages: every datagram emitted in [t0, t0+L) is dropped, t0 at every emission instant of the loss-free run, L in {1 RTO, 3 RTO, 10s, 130s}. Plus session pairs (cipher x FEC x mode grid) under every fate vector over the first K datagrams: blocking readers and writers must all finish.")
 	c.Assume("raw message mode: a message has at most rcv_wnd fragments (documented KCP limit)")
-	K := hx.Pick(c, 6, 8)
+	full := c.Deadline
+	c.Deadline = time.Now().Add(time.Until(full) * 35 / 100)
+	vfC02sess(c)
+	c.Deadline = time.Now().Add(time.Until(full) * 75 / 100)
+	K := hx.Pick(c, 6, 7)
 	grid := vfCoreGrid(!c.Quick(), K, vfAllFates)
 	vfRunGrid(c, grid, "C02:")
+	c.Deadline = full
 	// outages on a covering subset: one unit per base configuration, the outage is an environment choice
 	for i, g := range vfCoreGrid(false, 0, nil) {
 		if c.Quick() && i%3 != 0 {
@@ -214,6 +219,26 @@ func vfC02(c *hx.Ctx) {
 		p["outages"] = len(cc.Outages)
 		c.Explore("outages/"+g.name, p, 0, vfCoreRun(cc, "C02:"))
 	}
+	c.ByUnit = false
+}
+
+// whole sessions (cipher x FEC x mode grid): every fate vector over the first K datagrams, then a fair network; the
+// application threads (blocking Read/Write without deadlines) must all finish and the backlog must return to zero
+func vfC02sess(c *hx.Ctx) {
+	c.ByUnit = true
+	hx.NoCache = false
+	Ks := hx.Pick(c, 4, 5)
+	sgrid := vfPairGrid(!c.Quick())
+	per := (len(sgrid) + max(c.Of, 1) - 1) / max(c.Of, 1)
+	left := time.Until(c.Deadline) - 5*time.Second
+	for _, g := range sgrid {
+		cf := g.cfg
+		cf.K = Ks
+		cf.Owners = []string{"C02:"}
+		c.UnitBudget = max(left/time.Duration(max(per, 1)), 2*time.Second)
+		c.Explore("sess-fates/"+g.name, vfPairParams(cf, 0), 0, vfPairRun(cf, 0, vfStdBody))
+	}
+	c.ByUnit = false
 }
 
 func init() {
